@@ -81,7 +81,7 @@ def _emit_imports():
     return gen
 
 
-N_ENTRIES = 14
+N_ENTRIES = 16
 N_EMIT = N_ENTRIES * 4 * 2 * 2 * 2   # family entry x event-type ordering x language x (inline | resonance given as a separate sub-line) x history
 
 
